@@ -201,6 +201,29 @@ def render_pairs(pairs):
     return "\n".join(lines + assigns) + "\n", linemap
 
 
+ACCEPT_CHILD = r'''
+import sys, io, json, re, os
+import Cython
+from Cython.Compiler import Errors, Nodes, PyrexTypes
+from Cython.Compiler.Main import compile as cy_compile, CompilationOptions
+for m in (Cython, Nodes, PyrexTypes):
+    assert m.__file__.endswith(".py"), m.__file__
+src = sys.argv[1]
+opts = CompilationOptions(compiler_directives={"language_level": 3}, output_file=src[:-4] + ".c")
+buf = io.StringIO()
+Errors.init_thread()
+old = sys.stderr
+sys.stderr = buf
+try:
+    res = cy_compile(src, opts)
+finally:
+    sys.stderr = old
+errs = [[int(m.group(1)), m.group(2)[:300]] for m in re.finditer(r"^[^\n:]*\.pyx:(\d+):\d+: (.*)$", buf.getvalue(), re.M)
+        if not m.group(2).startswith(("warning", "performance hint"))]
+print("@@" + json.dumps({"num_errors": res.num_errors, "errors": errs}))
+'''
+
+
 # ---------------------------------------------------------------------------
 # P: the documented rules, written independently of the TLA+ text
 # (docs/src/userguide/language_basics.rst, "Error return values" / "Default return values")
@@ -274,3 +297,121 @@ def type_string(c, name_args):
     if ev != "none":
         return base + (" except? %s" % evt if ec else " except %s" % evt)
     return base + (" except *" if ec else " noexcept")
+
+
+# ---------------------------------------------------------------------------
+# C++ part (spec/ExcSpecCpp.tla)
+
+CPP_THROW = {
+    "exception": "std::exception()", "bad_alloc": "std::bad_alloc()", "bad_array_new_length": "std::bad_array_new_length()",
+    "bad_cast": "std::bad_cast()", "bad_typeid": "std::bad_typeid()", "bad_exception": "std::bad_exception()",
+    "logic_error": 'std::logic_error("m")', "domain_error": 'std::domain_error("m")',
+    "invalid_argument": 'std::invalid_argument("m")', "length_error": 'std::length_error("m")',
+    "out_of_range": 'std::out_of_range("m")', "runtime_error": 'std::runtime_error("m")',
+    "overflow_error": 'std::overflow_error("m")', "range_error": 'std::range_error("m")',
+    "underflow_error": 'std::underflow_error("m")',
+    "system_error": "std::system_error(std::make_error_code(std::errc::invalid_argument))",
+    "ios_failure": 'std::ios_base::failure("m")', "user_oor": "user_oor()", "user_exc": "user_exc()",
+    "user_plain": "user_plain()", "int": "42",
+}
+CPP_CLASSES = sorted(CPP_THROW)
+CPP_DECL = {"plus": "except +", "plus_star": "except +*", "plus_pyexc": "except +ZeroDivisionError", "plus_handler": "except +my_handler"}
+PYERR_CODE = 99
+
+
+def cpp_which(fb):
+    return 0 if fb == "ret" else (PYERR_CODE if fb == "pyerr" else 1 + CPP_CLASSES.index(fb))
+
+
+def render_cpp(cases):
+    """-> (source, {case index -> [fnexpr, which]})"""
+    sw = "\n".join("        case %d: throw %s;" % (1 + i, CPP_THROW[c]) for i, c in enumerate(CPP_CLASSES))
+    verb = '''
+    #include <stdexcept>
+    #include <new>
+    #include <typeinfo>
+    #include <ios>
+    #include <system_error>
+    #include <exception>
+    struct user_oor : std::out_of_range { user_oor() : std::out_of_range("u") {} };
+    struct user_exc : std::exception {};
+    struct user_plain {};
+    static int thrower_i(int which) {
+        switch (which) {
+%s
+        case %d: { PyGILState_STATE s = PyGILState_Ensure(); PyErr_SetString(PyExc_KeyError, "set by callee"); PyGILState_Release(s); return 0; }
+        }
+        return 7;
+    }
+    static void thrower_v(int which) { thrower_i(which); }
+    static void my_handler() {
+        try { throw; }
+        catch (const std::out_of_range&) { PyErr_SetString(PyExc_KeyError, "h"); }
+        catch (const std::bad_alloc&) { }
+        catch (...) { PyErr_SetString(PyExc_LookupError, "h"); }
+    }
+''' % (sw, PYERR_CODE)
+    src = ["# cython: language_level=3", "from cpython.exc cimport PyErr_Occurred", "cdef extern from *:", '    """' + verb + '    """',
+           "    void my_handler()"]
+    decls, callers, seen, callmap = [], [], set(), {}
+    for idx, c in enumerate(cases):
+        decl, rt, ctx = c["decl"], c["rt"], c["ctx"]
+        fn = "x_%s_%s" % (decl, rt)
+        if fn not in seen:
+            seen.add(fn)
+            decls.append('    %s %s "thrower_%s"(int) %s nogil' % (rt, fn, rt[0], CPP_DECL[decl]))
+        dname = {"def": "d_", "cdef": "dc_", "nogil": "dn_"}[ctx] + fn
+        if dname not in seen:
+            seen.add(dname)
+            asg = "" if rt == "void" else "r = "
+            ls = ["def %s(int k):" % dname] + ([] if rt == "void" else ["    cdef int r"])
+            if ctx == "def":
+                ls += ["    %s%s(k)" % (asg, fn)]
+            elif ctx == "cdef":
+                callers.append("cdef %s c_%s(int k) except *:\n    %s%s(k)\n" % (rt, fn, "" if rt == "void" else "return ", fn))
+                ls += ["    %sc_%s(k)" % (asg, fn)]
+            else:
+                ls += ["    with nogil:", "        %s%s(k)" % (asg, fn)]
+            ls += ["    cdef bint e = PyErr_Occurred() != NULL", "    return (%s, e)" % ("'void'" if rt == "void" else "r")]
+            callers.append("\n".join(ls) + "\n")
+        callmap[idx] = [dname, cpp_which(c["fb"])]
+    return "\n".join(src + decls + [""] + callers), callmap
+
+
+def cpp_expected_obs(c):
+    if c["k"] == "exc":
+        return ["e", c["v"], []]
+    return ["v", "'void'" if c["rt"] == "void" else "7", False, []]
+
+
+# nearest listed base class, written from the documented table + the C++ standard's hierarchy (P for the C++ part)
+CPP_PARENT = {"exception": None, "bad_alloc": "exception", "bad_array_new_length": "bad_alloc", "bad_cast": "exception",
+              "bad_typeid": "exception", "bad_exception": "exception", "logic_error": "exception", "domain_error": "logic_error",
+              "invalid_argument": "logic_error", "length_error": "logic_error", "out_of_range": "logic_error",
+              "runtime_error": "exception", "overflow_error": "runtime_error", "range_error": "runtime_error",
+              "underflow_error": "runtime_error", "system_error": "runtime_error", "ios_failure": "system_error",
+              "user_oor": "out_of_range", "user_exc": "exception", "user_plain": None, "int": None}
+CPP_TABLE = {"bad_alloc": "MemoryError", "bad_cast": "TypeError", "bad_typeid": "TypeError", "domain_error": "ValueError",
+             "invalid_argument": "ValueError", "ios_failure": "OSError", "out_of_range": "IndexError",
+             "overflow_error": "OverflowError", "range_error": "ArithmeticError", "underflow_error": "ArithmeticError"}
+
+
+def cpp_doc_rule(c):
+    fb = c["fb"]
+    if fb == "ret":
+        return ("val", "ok")
+    if fb == "pyerr":
+        return ("exc", "KeyError")
+    chain = []
+    x = fb
+    while x is not None:
+        chain.append(x)
+        x = CPP_PARENT[x]
+    if c["decl"] == "plus_pyexc":
+        return ("exc", "ZeroDivisionError")
+    if c["decl"] == "plus_handler":
+        return ("exc", "KeyError" if "out_of_range" in chain else ("RuntimeError" if "bad_alloc" in chain else "LookupError"))
+    for x in chain:
+        if x in CPP_TABLE:
+            return ("exc", CPP_TABLE[x])
+    return ("exc", "RuntimeError")
